@@ -15,7 +15,7 @@ use crate::{
     },
 };
 
-use super::CandidateValue;
+use super::{CandidateValue, candidates::NullableValue};
 
 /// Indicates that a property's value is dependent on another value in the query.
 ///
@@ -410,51 +410,73 @@ fn compute_candidate_from_operation<'vertex, Vertex: Debug + Clone + 'vertex>(
         }
         Operation::LessThan(_, _) => {
             compute_candidate_from_tagged_value!(iterator, initial_candidate, candidate, value, {
-                candidate.intersect(CandidateValue::Range(Range::with_end(
-                    Bound::Excluded(value),
-                    true, // nullability is handled in the initial_candidate
-                )));
+                candidate.intersect(range_candidate(value, |value| {
+                    Range::with_end(
+                        Bound::Excluded(value),
+                        true, // nullability is handled in the initial_candidate
+                    )
+                }));
             })
         }
         Operation::LessThanOrEqual(_, _) => {
             compute_candidate_from_tagged_value!(iterator, initial_candidate, candidate, value, {
-                candidate.intersect(CandidateValue::Range(Range::with_end(
-                    Bound::Included(value),
-                    true, // nullability is handled in the initial_candidate
-                )));
+                candidate.intersect(range_candidate(value, |value| {
+                    Range::with_end(
+                        Bound::Included(value),
+                        true, // nullability is handled in the initial_candidate
+                    )
+                }));
             })
         }
         Operation::GreaterThan(_, _) => {
             compute_candidate_from_tagged_value!(iterator, initial_candidate, candidate, value, {
-                candidate.intersect(CandidateValue::Range(Range::with_start(
-                    Bound::Excluded(value),
-                    true, // nullability is handled in the initial_candidate
-                )));
+                candidate.intersect(range_candidate(value, |value| {
+                    Range::with_start(
+                        Bound::Excluded(value),
+                        true, // nullability is handled in the initial_candidate
+                    )
+                }));
             })
         }
         Operation::GreaterThanOrEqual(_, _) => {
             compute_candidate_from_tagged_value!(iterator, initial_candidate, candidate, value, {
-                candidate.intersect(CandidateValue::Range(Range::with_end(
-                    Bound::Included(value),
-                    true, // nullability is handled in the initial_candidate
-                )));
+                candidate.intersect(range_candidate(value, |value| {
+                    Range::with_end(
+                        Bound::Included(value),
+                        true, // nullability is handled in the initial_candidate
+                    )
+                }));
             })
         }
         Operation::OneOf(_, _) => {
             compute_candidate_from_tagged_value!(iterator, initial_candidate, candidate, value, {
-                let values = value
-                    .as_slice()
-                    .unwrap_or_else(|| {
-                        panic!(
-                            "\
+                let values = match value.as_slice() {
+                    Some(values) => values.to_vec(),
+                    // `one_of` against a null list is never satisfied.
+                    None if value.is_null() => vec![],
+                    None => panic!(
+                        "\
 field {field_name} of type {field_type} produced an invalid value when resolving @tag: {value:?}",
-                        )
-                    })
-                    .to_vec();
+                    ),
+                };
                 candidate.intersect(CandidateValue::Multiple(values));
             })
         }
         _ => unreachable!("unsupported 'operation': {:?}", operation,),
+    }
+}
+
+/// The candidate for an ordering comparison against the given tag value.
+///
+/// Comparisons against `null` are never satisfied, so in that case no value is a candidate.
+fn range_candidate(
+    value: FieldValue,
+    make_range: impl FnOnce(FieldValue) -> Range<FieldValue>,
+) -> CandidateValue<FieldValue> {
+    if value.is_null() {
+        CandidateValue::Impossible
+    } else {
+        CandidateValue::Range(make_range(value))
     }
 }
 
